@@ -354,7 +354,9 @@ MORE_THM = {
         "(read_stream_sound_from_open, _from_openHash); a keyed read that is ok under any fault plan met no fault and returns "
         "bytes passing the check of the entry the bucket holds (read_fault_sound).",
  "C08": " A by-address write with a wrong declared size: exactly the size error, every lookup as before, the store changed at "
-        "exactly the address of the bytes fed, healthy, tmp clean (putHash_wrong_size_total).",
+        "exactly the address of the bytes fed, healthy, tmp clean (putHash_wrong_size_total). A declared integrity on a writer HELD OPEN "
+        "across other operations: unsatisfied => the integrity error and every lookup as found, satisfied => the key maps to the "
+        "declared entry (held_commit_declared).",
  "C13": " remove_fully under any fault plan, then retried: the retry ends exactly where an uninterrupted removal ends "
         "(removeFully_fault_retry).",
  "C14": " The abandon program as a whole (open, any writes, drop), from any filesystem on which it could be opened: nothing at "
